@@ -15,3 +15,81 @@ package node
 //@   ensures [words] result.ID[0] == refw0(old(n.uniqID) + 1) && result.ID[1] == refw1(old(n.uniqID) + 1) && result.ID[2] == 0
 
 //@ lemma MakeRef_injective props C06 C07: forall a, b uint64 :: a != b ==> (refw0(a) != refw0(b) || refw1(a) != refw1(b))
+
+// ---------------------------------------------------------------------------------------------
+// C15: remote spawn / application start permissions. Abstract view of the two allow-tables:
+// a name is allowed for a peer iff the table has an entry for the name whose peer map is empty
+// ("any peer") or maps the peer to true.
+
+//@ spec func appEntry(n *network, name gen.Atom) *enableAppStart = smVal(n.enableAppStart, any(name)).(*enableAppStart)
+//@ spec func appAllowed(n *network, name gen.Atom, peer gen.Atom) bool = smHas(n.enableAppStart, any(name)) && (len(appEntry(n, name).nodes) == 0 || appEntry(n, name).nodes[peer])
+//@ spec func appTableWF(n *network) bool = forall k any :: smHas(n.enableAppStart, k) ==> typeis(smVal(n.enableAppStart, k), *enableAppStart) && smVal(n.enableAppStart, k).(*enableAppStart) != nil && smVal(n.enableAppStart, k).(*enableAppStart).nodes != nil
+
+//@ spec func spawnEntry(n *network, name gen.Atom) *enableSpawn = smVal(n.enableSpawn, any(name)).(*enableSpawn)
+//@ spec func spawnAllowed(n *network, name gen.Atom, peer gen.Atom) bool = smHas(n.enableSpawn, any(name)) && (len(spawnEntry(n, name).nodes) == 0 || spawnEntry(n, name).nodes[peer])
+//@ spec func spawnTableWF(n *network) bool = forall k any :: smHas(n.enableSpawn, k) ==> typeis(smVal(n.enableSpawn, k), *enableSpawn) && smVal(n.enableSpawn, k).(*enableSpawn) != nil && smVal(n.enableSpawn, k).(*enableSpawn).nodes != nil
+
+//@ func (n *network) DisableSpawn
+//@   props C15
+//@   mode int
+//@   requires [wf] spawnTableWF(n)
+//@   loop 1 invariant [idx] -1 <= rangeindex && rangeindex < len(nodes)
+//@   loop 1 invariant [denied_so_far] forall j int :: 0 <= j && j <= rangeindex ==> has(enable.nodes, nodes[j]) && !enable.nodes[nodes[j]]
+//@   ensures [unknown_name] !old(smHas(n.enableSpawn, any(name))) ==> result == gen.ErrUnknown
+//@   ensures [known_name] old(smHas(n.enableSpawn, any(name))) ==> result == nil
+//@   ensures [no_peers_removes_name] len(nodes) == 0 && result == nil ==> forall p gen.Atom :: !spawnAllowed(n, name, p)
+//@   ensures [listed_peers_denied] len(nodes) > 0 && result == nil ==> forall i int :: 0 <= i && i < len(nodes) ==> !spawnAllowed(n, name, nodes[i])
+//@   ensures [wf_kept] spawnTableWF(n)
+
+//@ func (n *network) DisableApplicationStart
+//@   props C15
+//@   mode int
+//@   requires [wf] appTableWF(n)
+//@   loop 1 invariant [idx] -1 <= rangeindex && rangeindex < len(nodes)
+//@   loop 1 invariant [denied_so_far] forall j int :: 0 <= j && j <= rangeindex ==> has(enable.nodes, nodes[j]) && !enable.nodes[nodes[j]]
+//@   ensures [unknown_name] !old(smHas(n.enableAppStart, any(name))) ==> result == gen.ErrUnknown
+//@   ensures [known_name] old(smHas(n.enableAppStart, any(name))) ==> result == nil
+//@   ensures [no_peers_removes_name] len(nodes) == 0 && result == nil ==> forall p gen.Atom :: !appAllowed(n, name, p)
+//@   ensures [listed_peers_denied] len(nodes) > 0 && result == nil ==> forall i int :: 0 <= i && i < len(nodes) ==> !appAllowed(n, name, nodes[i])
+//@   ensures [wf_kept] appTableWF(n)
+
+//@ func (n *network) isEnabledApplicationStart
+//@   props C15
+//@   mode int
+//@   requires [wf] appTableWF(n)
+//@   ensures [exact] (result == nil) <==> appAllowed(n, name, source)
+//@   ensures [reason] !smHas(n.enableAppStart, any(name)) ==> result == gen.ErrNameUnknown
+//@   ensures [reason2] smHas(n.enableAppStart, any(name)) && !appAllowed(n, name, source) ==> result == gen.ErrNotAllowed
+
+//@ func (n *network) getEnabledSpawn
+//@   props C15
+//@   mode int
+//@   requires [wf] spawnTableWF(n)
+//@   ensures [exact] (result.1 == nil) <==> spawnAllowed(n, name, source)
+//@   ensures [factory] result.1 == nil ==> result.0 == spawnEntry(n, name).factory
+//@   ensures [reason] !smHas(n.enableSpawn, any(name)) ==> result.1 == gen.ErrNameUnknown
+//@   ensures [reason2] smHas(n.enableSpawn, any(name)) && !spawnAllowed(n, name, source) ==> result.1 == gen.ErrNotAllowed
+
+//@ func (n *network) EnableApplicationStart
+//@   props C15
+//@   mode int
+//@   requires [wf] appTableWF(n)
+//@   loop 1 invariant [idx] -1 <= rangeindex && rangeindex < len(nodes)
+//@   loop 1 invariant [allowed_so_far] forall j int :: 0 <= j && j <= rangeindex ==> enable.nodes[nodes[j]]
+//@   loop 1 invariant [entry] enable != nil && enable.nodes != nil && smHas(n.enableAppStart, any(name)) && appEntry(n, name) == enable && appTableWF(n)
+//@   ensures [ok] result == nil
+//@   ensures [listed_peers_allowed] len(nodes) > 0 ==> forall i int :: 0 <= i && i < len(nodes) ==> appAllowed(n, name, nodes[i])
+//@   ensures [no_peers_allows_any] len(nodes) == 0 ==> forall p gen.Atom :: appAllowed(n, name, p)
+//@   ensures [wf_kept] appTableWF(n)
+
+//@ func (n *network) EnableSpawn
+//@   props C15
+//@   mode int
+//@   requires [wf] spawnTableWF(n)
+//@   loop 1 invariant [idx] -1 <= rangeindex && rangeindex < len(nodes)
+//@   loop 1 invariant [allowed_so_far] forall j int :: 0 <= j && j <= rangeindex ==> enable.nodes[nodes[j]]
+//@   loop 1 invariant [entry] enable != nil && enable.nodes != nil && smHas(n.enableSpawn, any(name)) && spawnEntry(n, name) == enable && spawnTableWF(n)
+//@   ensures [nil_factory] factory == nil ==> result == gen.ErrIncorrect && (forall p gen.Atom :: spawnAllowed(n, name, p) == old(spawnAllowed(n, name, p)))
+//@   ensures [listed_peers_allowed] result == nil && len(nodes) > 0 ==> forall i int :: 0 <= i && i < len(nodes) ==> spawnAllowed(n, name, nodes[i])
+//@   ensures [no_peers_allows_any] result == nil && len(nodes) == 0 ==> forall p gen.Atom :: spawnAllowed(n, name, p)
+//@   ensures [wf_kept] spawnTableWF(n)
